@@ -1,6 +1,7 @@
 import Litep2pVerif.Proofs.Bitswap.Prefix
 import Litep2pVerif.Proofs.Bitswap.Batch
 import Litep2pVerif.Proofs.Bitswap.Proto
+import Litep2pVerif.Proofs.Bitswap.Cmd
 import Litep2pVerif.Generated.Consts
 import Litep2pVerif.Proofs.Node.Wiring
 /-!
@@ -672,6 +673,33 @@ example :
 
 end ProtoLevel
 
+section CommandChannel
+open Proto Cmd Litep2pVerif.Kad.Events
+
+/-- **A response handed to `send_response` is never dropped on the way to the event loop.** Whatever the capacity
+(`> 0`) of the command channel and however many commands the user hands over while `run()` is not polled - the
+channel fills up and the user's `send(..).await` suspends holding the next command -, once the loop runs it
+receives exactly the commands handed over, each once, in that order, and nothing is left in the channel; the
+protocol state (and what was dialled / opened / written) is therefore that of handling all of them in order. -/
+theorem response_command_never_dropped (L : Limits) (cap : Nat) (hcap : 0 < cap) (st : St) (cmds : List Command) :
+    received cap cmds = cmds ∧
+    (heldThenDrained ({ cap := cap } : Chan Command) cmds).pending = 0 ∧
+    burst L cap st cmds = handleAll L st cmds := by
+  have h := heldThenDrained_got cap hcap cmds
+  refine ⟨h.1, h.2, ?_⟩
+  unfold burst
+  rw [show received cap cmds = cmds from h.1]
+
+/-- Non-vacuity: capacity 2, five responses: the user suspends after two, the loop receives all five in order; with
+`try_send` (the seeded change) it receives two. -/
+example :
+    let cmds : List Command := (List.range 5).map fun i => (1, Action.response [.block ⟨⟨1, 85, 18, 32⟩, 36, 1 + i, 0⟩])
+    suspendedAt 2 cmds = some 2 ∧ received 2 cmds = cmds ∧ (receivedTry 2 cmds).length = 2 ∧
+    (burst ⟨100, 100, 1000, 1000, 15000⟩ 2 {} cmds).1.pendingOutbound.map (fun e => e.2.length) = [5] := by decide
+
+end CommandChannel
+
+#print axioms response_command_never_dropped
 #print axioms cid_self_certifying
 #print axioms malformed_dropped
 #print axioms prefix_roundtrip
